@@ -473,8 +473,187 @@ def gen_ws(tier, rng):
         yield Case("c13.ws " + hex_tok(rb(rng, rng.choice([1, 2, 3, 4, 6, 10, 14, 20]))), cls="ws-random")
 
 
+# ---------------------------------------------------------------- GB28181 program stream (ISO 13818-1 2.5)
+def ps_pts(flagbits, v):
+    return bytes([(flagbits << 4) | (((v >> 30) & 7) << 1) | 1, (v >> 22) & 0xff, (((v >> 15) & 0x7f) << 1) | 1, (v >> 7) & 0xff, ((v & 0x7f) << 1) | 1])
+
+
+def ps_pack_header(scr=0, stuffing=0):
+    return b"\x00\x00\x01\xba" + bytes([0x44 | ((scr >> 27) & 0x38), 0, 4, 0, 4, 1, 0x01, 0x89, 0xc3, 0xf8 | stuffing]) + b"\xff" * stuffing
+
+
+def ps_system_header():
+    body = bytes([0x80, 0x04, 0xe1, 0x04, 0xe1, 0x7f, 0xe0, 0xe0, 0x80, 0xc0, 0xc0, 0x08])
+    return b"\x00\x00\x01\xbb" + struct.pack(">H", len(body)) + body
+
+
+def ps_psm(entries, info=b""):
+    es = b"".join(bytes([t, sid]) + struct.pack(">H", len(d)) + d for t, sid, d in entries)
+    body = bytes([0xe0, 0xff]) + struct.pack(">H", len(info)) + info + struct.pack(">H", len(es)) + es + b"\x45\xbd\xdc\xf4"
+    return b"\x00\x00\x01\xbc" + struct.pack(">H", len(body)) + body
+
+
+def ps_pes(sid, payload, pts=None, dts=None, stuffing=0, length=None, phdl=None, flags=None):
+    hd = b""
+    fl = 0
+    if pts is not None and dts is not None:
+        hd = ps_pts(3, pts) + ps_pts(1, dts)
+        fl = 0xc0
+    elif pts is not None:
+        hd = ps_pts(2, pts)
+        fl = 0x80
+    hd += b"\xff" * stuffing
+    body = bytes([0x8c, fl if flags is None else flags, len(hd) if phdl is None else phdl]) + hd + payload
+    return b"\x00\x00\x01" + bytes([sid]) + struct.pack(">H", len(body) if length is None else length) + body
+
+
+def ps_rtp_split(data, seq0, ts, mtu, ssrc=0x0badcafe):
+    out = []
+    chunks = [data[i:i + mtu] for i in range(0, len(data), mtu)]
+    for i, c in enumerate(chunks):
+        out.append(rtp(96, seq0 + i, ts, ssrc, c, marker=int(i == len(chunks) - 1)))
+    return out
+
+
+def ps_line(maxlist, pkts):
+    return "c13.ps %d %s" % (maxlist, ",".join(hex_tok(p) for p in pkts) if pkts else "-")
+
+
+def ps_valid_stream(rng, hevc=False, mtu=40, frames=3, audio=True, nopts=False):
+    """key frame (pack hdr, system hdr, psm, sps/pps/idr in PES packets) then P frames and audio, as RTP packets"""
+    pkts = []
+    seq = 100
+    if hevc:
+        ps = [b"\x00\x00\x00\x01\x40\x01\x0c\x01\xff", b"\x00\x00\x00\x01\x42\x01\x01\x01", b"\x00\x00\x01\x44\x01\xc1\x72", b"\x00\x00\x00\x01\x26\x01" + rb(rng, 30)]
+        psm = ps_psm([(0x24, 0xe0, b""), (0x90, 0xc0, b"")])
+    else:
+        ps = [b"\x00\x00\x00\x01\x67\x42\x00\x1e\xab", b"\x00\x00\x00\x01\x68\xce\x38\x80", b"\x00\x00\x01\x65" + rb(rng, 30)]
+        psm = ps_psm([(0x1b, 0xe0, b"\x0a\x0b"), (0x0f, 0xc0, b"")], info=b"\x01")
+    for f in range(frames):
+        pts = None if nopts else 90000 + 3600 * f
+        data = ps_pack_header(stuffing=f % 3)
+        if f == 0:
+            data += ps_system_header() + psm
+            for i, n in enumerate(ps):
+                data += ps_pes(0xe0, n, pts=pts if i == 0 else None, dts=pts if (i == 0 and pts is not None and f == 0) else None)
+        else:
+            data += ps_pes(0xe0, b"\x00\x00\x00\x01" + bytes([0x02 if hevc else 0x41, 0x01]) + rb(rng, 25), pts=pts, stuffing=f)
+        if audio:
+            data += ps_pes(0xc0, b"\xff\xf1" + rb(rng, 10), pts=pts)
+        p = ps_rtp_split(data, seq, 3600 * f, mtu)
+        seq += len(p)
+        pkts += p
+    data = ps_pack_header() + b"\x00\x00\x01\xb9"
+    pkts += ps_rtp_split(data, seq, 3600 * frames, mtu)
+    return pkts
+
+
+def gen_ps(tier, rng):
+    for hevc in (False, True):
+        for mtu in (12, 40, 1400):
+            for nopts in (False, True):
+                v = ps_valid_stream(rng, hevc=hevc, mtu=mtu, nopts=nopts)
+                yield Case(ps_line(1024, v), cls="ps-valid")
+    v = ps_valid_stream(rng, mtu=30)
+    # every truncation of every packet of a valid stream (the cut packet replaces the original)
+    step = 1 if tier == "thorough" else 2
+    for k in range(len(v)):
+        for cut in range(12, len(v[k]), step):
+            yield Case(ps_line(1024, v[:k] + [v[k][:cut]] + v[k + 1:k + 3]), cls="ps-trunc")
+    one = ps_valid_stream(rng, mtu=1400, frames=2)
+    for k in range(len(one)):
+        for cut in range(12, min(len(one[k]), 140)):
+            yield Case(ps_line(1024, one[:k] + [one[k][:cut]]), cls="ps-trunc")
+    # short buffers: every prefix of each start code as a whole body (the confirmed F-22 site)
+    for code in (0xba, 0xbb, 0xbc, 0xc0, 0xe0, 0xb9, 0xbd, 0xbe, 0xbf, 0xf0, 0xf1, 0xff, 0x00, 0xb8):
+        full = b"\x00\x00\x01" + bytes([code]) + rb(rng, 12)
+        for n in range(1, len(full) + 1):
+            yield Case(ps_line(1024, [rtp(96, 1, 0, 1, full[:n])]), cls="ps-short")
+            yield Case(ps_line(1024, [rtp(96, 1, 0, 1, full[:n]), rtp(96, 2, 0, 1, full[n:] or b"\x00")]), cls="ps-short")
+    # PES length / header data length / flags: 0, 1, max-1, max
+    nal = b"\x00\x00\x00\x01\x67\x42\x00\x1e"
+    for sid in (0xe0, 0xc0):
+        for length in (0, 1, 2, 3, 4, 7, 8, 9, 12, 13, 14, 20, 0xfffe, 0xffff):
+            for phdl in (0, 1, 4, 5, 9, 10, 11, 255):
+                for flags in (0x00, 0x40, 0x80, 0xc0):
+                    pes = b"\x00\x00\x01" + bytes([sid]) + struct.pack(">H", length) + bytes([0x80, flags, phdl]) + ps_pts(2, 1234) + ps_pts(1, 1000) + nal
+                    pre = ps_psm([(0x1b, 0xe0, b""), (0x0f, 0xc0, b"")])
+                    yield Case(ps_line(1024, [rtp(96, 1, 0, 1, pre + pes), rtp(96, 2, 9, 1, ps_pes(sid, nal, pts=99999))]), cls="ps-pes-field")
+    # PES packets that end exactly where the header wants to read on (rb[i+1], rb[i+2], readPts)
+    for sid in (0xe0, 0xc0):
+        for flags in (0x00, 0x40, 0x80, 0xc0):
+            for length in range(0, 16):
+                for phdl in (0, 5, 10):
+                    body = (bytes([0x80, flags, phdl]) + ps_pts(2, 7) + ps_pts(1, 7) + b"\x00\x00\x01\x09")[:length]
+                    pes = b"\x00\x00\x01" + bytes([sid]) + struct.pack(">H", length) + body
+                    yield Case(ps_line(1024, [rtp(96, 1, 0, 1, ps_psm([(0x1b, 0xe0, b""), (0x90, 0xc0, b"")]) + pes)]), cls="ps-pes-exact")
+    # short NAL units in the video buffer (Payload[4] in onAvPacketWrap)
+    for vb in (b"\x00\x00\x01", b"\x00\x00\x01\x65", b"\x00\x00\x00\x01", b"\x00\x00\x00\x01\x67", b"\x00\x00\x01\x67\x00\x00\x01\x68\x00\x00\x01",
+               b"\x67\x68", b"", b"\x00\x00\x00\x00\x00\x01\x09", b"\x00\x00\x01\x00\x00\x01\x00\x00\x01\x67\x99", b"\x01\x00\x00\x01\x68\x01\x02"):
+        for st in (0x1b, 0x24, 0x99):
+            pre = ps_psm([(st, 0xe0, b"")])
+            yield Case(ps_line(1024, [rtp(96, 1, 0, 1, pre + ps_pes(0xe0, vb, pts=1000)), rtp(96, 2, 9, 1, ps_pes(0xe0, vb, pts=2000)), rtp(96, 3, 9, 1, ps_pes(0xe0, vb, pts=3000))]), cls="ps-nalu")
+            yield Case(ps_line(1024, [rtp(96, 1, 0, 1, pre + ps_pes(0xe0, vb)), rtp(96, 2, 9, 1, ps_pes(0xe0, vb)), rtp(96, 3, 10, 1, ps_pes(0xe0, vb))]), cls="ps-nalu")
+    # program stream map fields
+    for psi in (0, 1, 2, 0xfffe, 0xffff):
+        for esml in (0, 1, 3, 4, 5, 8, 9, 0xffff):
+            for esil in (0, 1, 4, 0xffff):
+                body = bytes([0xe0, 0xff]) + struct.pack(">H", psi) + struct.pack(">H", esml) + bytes([0x1b, 0xe0]) + struct.pack(">H", esil) + bytes([0x0f, 0xc0, 0, 0]) + rb(rng, 6)
+                yield Case(ps_line(1024, [rtp(96, 1, 0, 1, b"\x00\x00\x01\xbc" + struct.pack(">H", len(body)) + body + ps_pes(0xe0, nal, pts=5))]), cls="ps-psm-field")
+    for n in range(0, 24):
+        body = ps_psm([(0x1b, 0xe0, b"\x01\x02"), (0x0f, 0xc0, b"")])
+        yield Case(ps_line(1024, [rtp(96, 1, 0, 1, body[:n] or b"\x00")]), cls="ps-psm-field")
+    # pack header stuffing and generic "length + body" sections
+    for stuffing in range(8):
+        for have in (0, 1, stuffing, stuffing + 1):
+            yield Case(ps_line(1024, [rtp(96, 1, 0, 1, ps_pack_header(stuffing=0)[:13] + bytes([0xf8 | stuffing]) + b"\xff" * have + b"\x00\x00\x01\xb9")]), cls="ps-pack")
+    for code in (0xbb, 0xbd, 0xbe, 0xbf, 0xf0, 0xf1, 0xff):
+        for l in (0, 1, 2, 5, 0xfffe, 0xffff):
+            for have in (0, 1, 2, 5, 6):
+                yield Case(ps_line(1024, [rtp(96, 1, 0, 1, b"\x00\x00\x01" + bytes([code]) + struct.pack(">H", l) + rb(rng, have)), rtp(96, 2, 0, 1, ps_pack_header())]), cls="ps-section")
+    # reorder queue: loss, duplicates, stale, queue full, reset after a bad code (Size accounting)
+    good = lambda s, t=0: rtp(96, s, t, 1, ps_pack_header())
+    bad = lambda s: rtp(96, s, 0, 1, b"\xde\xad\xbe\xef\x00")
+    start = lambda s: rtp(96, s, 0, 1, b"\x00\x00\x01\xba\x44")
+    for mx in (1, 2, 3, 4, 8):
+        yield Case(ps_line(mx, [good(1)] + [good(s) for s in range(3, 3 + mx + 3)] + [good(2)]), cls="ps-queue")
+        yield Case(ps_line(mx, [good(1)] + [good(s) for s in (5, 4, 3, 3, 1, 0, 65535)] + [good(s) for s in range(7, 7 + mx + 2)]), cls="ps-queue")
+        yield Case(ps_line(mx, [good(65534)] + [start(s & 0xffff) for s in range(65536, 65536 + mx + 4)]), cls="ps-queue")
+        yield Case(ps_line(mx, [good(1), good(3), start(4), good(5), start(7), good(8), good(10), good(12), good(14), good(16), good(18)]), cls="ps-queue")
+        # bad code while packets are queued -> list.Reset(); repeat until the Size counter says "full"
+        seqs = []
+        for r in range(mx + 3):
+            b = 10 * r
+            seqs += [good(b + 1), good(b + 3), good(b + 4), bad(b + 2)]
+        yield Case(ps_line(mx, seqs + [bad(500), bad(501), good(502)]), cls="ps-reset")
+        yield Case(ps_line(mx, seqs + [good(500), good(501)]), cls="ps-reset")
+    # mutation stream
+    pools = [ps_valid_stream(rng, mtu=60), ps_valid_stream(rng, hevc=True, mtu=200, audio=False), ps_valid_stream(rng, mtu=1400, frames=4, nopts=True)]
+    n = 400 if tier == "quick" else 40000
+    for _ in range(n):
+        v = list(rng.choice(pools))
+        for _k in range(rng.choice([1, 1, 2, 3])):
+            i = rng.randrange(len(v))
+            v[i] = mutate(rng, v[i], hdr=12)
+        if rng.random() < 0.25:
+            i = rng.randrange(len(v))
+            j = rng.randrange(len(v))
+            v[i], v[j] = v[j], v[i]
+        if rng.random() < 0.15:
+            del v[rng.randrange(len(v))]
+        yield Case(ps_line(rng.choice([1024, 1024, 4, 2]), v), cls="ps-mutation")
+    for _ in range(150 if tier == "quick" else 20000):
+        pk = []
+        for i in range(rng.randrange(1, 5)):
+            body = bytearray(rb(rng, rng.choice([1, 2, 3, 4, 5, 6, 8, 9, 13, 14, 20, 30])))
+            if rng.random() < 0.8 and len(body) >= 4:
+                body[0:4] = b"\x00\x00\x01" + bytes([rng.choice([0xba, 0xbb, 0xbc, 0xc0, 0xe0, 0xe0, 0xc0, 0xb9, 0xbd])])
+            pk.append(rtp(96, 1 + i, rng.choice([0, 7]), 1, bytes(body), pad=rng.choice([0, 0, 0, 2])))
+        yield Case(ps_line(rng.choice([1024, 2]), pk), cls="ps-random")
+
+
 def gen_cases(tier, rng):
-    for g in (gen_rtp, gen_rtcp, gen_insess, gen_ilv, gen_ws):
+    for g in (gen_rtp, gen_rtcp, gen_insess, gen_ilv, gen_ws, gen_ps):
         for c in g(tier, rng):
             yield c
 
@@ -496,6 +675,10 @@ def nontrivial(c, out):
         o = out.split(" ")
         evs = o[1] if len(o) > 1 else ""
         return "%s|%s|av%d|rr%d" % (shape, outcome_class(out), min(evs.count("av:"), 4), min(evs.count("rr:"), 3))
+    if f[0] == "c13.ps":
+        o = out.split(" ")
+        evs = o[1] if len(o) > 1 else ""
+        return "%s|%s|%s|k%d|e%d|av%d" % (c.cls, f[1], outcome_class(out), min(evs.count("k"), 6), min(evs.count("e"), 4), min(evs.count("av:"), 6))
     n = len(tok_bytes(f[-1])) if len(f[-1]) < 4000 else 9999
     return "%s|%s|%s|%d" % (f[0], shape, outcome_class(out), min(n, 40))
 
@@ -526,6 +709,17 @@ def classify_finding(c, out):
 
 def neighbors(c, rng):
     f = c.line.split(" ")
+    if f[0] == "c13.ps":
+        if f[2] == "-":
+            return
+        items = f[2].split(",")
+        for k in range(len(items)):
+            b = tok_bytes(items[k])
+            for t in range(12, len(b)):
+                yield "c13.ps %s %s" % (f[1], ",".join(items[:k] + [hex_tok(b[:t])]))
+            for _ in range(10):
+                yield "c13.ps %s %s" % (f[1], ",".join(items[:k] + [hex_tok(mutate(rng, b, 12))] + items[k + 1:]))
+        return
     if f[0] == "c13.insess":
         if f[7] == "-":
             return
